@@ -37,7 +37,7 @@ var baseDomains = []string{"example.org", "google.com", "google.co.uk", "notgoog
 var wildDomains = []string{"google.*", "example.*", "a.*", "kobe.*", "github.*", "x.google.*"}
 var wildSuffixes = []string{"com", "co.uk", "local", "github.io", "org", "kobe.jp", "x.kobe.jp", "net", "ck", "www.ck", "blogspot.com", "de"}
 var ctagVocab = []string{"phone", "pc", "user_child", "a", "b", "zz", "device_tv", "0"}
-var clientNames = []string{"Frank's laptop", "Kids", "a|b", "x, y", "dead.beef", "abc", "10.0.0.0/8x", "My \"PC\"", "pc", "PC", "kids", "::g", "1.2.3.4.5", "a b", "it's \"q\""}
+var clientNames = []string{"Frank's laptop", "Kids", "a|b", "x, y", "dead.beef", "abc", "10.0.0.0/8x", "My \"PC\"", "pc", "PC", "kids", "::g", "1.2.3.4.5", "a b", "it's \"q\"", "alice", "Bob", "Zed", "carol"}
 var clientIPs = []string{"1.2.3.4", "1.2.3.5", "10.0.0.1", "10.255.255.255", "11.0.0.0", "192.168.1.1", "192.168.1.255", "192.168.2.1",
 	"::1", "fe01::1", "fe01:0:0:1::1", "2001:db8::1", "2001:db9::1", "0.0.0.0", "255.255.255.255", "::"}
 var clientCIDRs = []string{"10.0.0.0/8", "10.0.0.1/8", "192.168.1.0/24", "192.168.1.77/24", "1.2.3.4/32", "1.2.3.4/31", "1.2.3.4/30",
@@ -143,7 +143,8 @@ type modelOpts struct {
 }
 
 var defaultPatterns = []string{"||example.org^", "||google.com^", "|https://a.com/", "example", "/ads/x", "a.com|", "://1.2.",
-	"||1.2.3.4^", "google", "ab", "*", "||", "||sub.example.org^", "|http://", "example.org/ads/*", "^ads^", "||example.org^*x", "GOOGLE"}
+	"||1.2.3.4^", "google", "ab", "*", "||", "||sub.example.org^", "|http://", "example.org/ads/*", "^ads^", "||example.org^*x", "GOOGLE",
+	"/ad-server.", "/sub.", "/example.", "/ad_server."}
 
 func genNetModel(t *rapid.T, o modelOpts) NetModel {
 	var m NetModel
@@ -437,7 +438,7 @@ func genQ(t *rapid.T, m *NetModel) Q {
 	var q Q
 	q.Host = chance(t, "hostreq", 3)
 	hosts := []string{"example.org", "www.example.org", "google.com", "a.com", "1.2.3.4", "1.2.9.9", "notexample.org",
-		"EXAMPLE.org", "sub.example.org", "ads.example.com", "google.co.uk", "b.net", "x.a.com", "abc.de", "dead.beef", "1.2.3"}
+		"EXAMPLE.org", "sub.example.org", "ads.example.com", "google.co.uk", "b.net", "x.a.com", "abc.de", "dead.beef", "1.2.3", "ad-server.example.org"}
 	h := pick(t, "host", hosts)
 	if m != nil && len(m.Deny) > 0 && chance(t, "deny-host", 2) {
 		h = hostVariant(t, "denyvariant", pick(t, "denyd", m.Deny))
@@ -752,7 +753,8 @@ func netTexts(rs []*rules.NetworkRule) []string {
 
 var candHosts = []string{"example.org", "www.example.org", "google.com", "a.com", "1.2.3.4", "1.2.9.9", "notexample.org",
 	"sub.example.org", "ads.example.com", "google.co.uk", "b.net", "x.a.com", "x.sub.example.org", "ads.net",
-	"abc.de", "dead.beef", "1.2.3"} // hex digits and dots only, but not IP addresses
+	"abc.de", "dead.beef", "1.2.3", // hex digits and dots only, but not IP addresses
+	"ad-server.example.org", "ad_server.example.org"}
 
 func candidateURLs() []string {
 	var out []string
